@@ -14,8 +14,10 @@ def check(A):
         R.no_block_rules(A, fl, 'C15')
         R.post_catch_all_rule(A, fl, 'C15')
         R.disconnect_rules(A, fl, 'C15')
+        R.trigger_event_rules(A, fl, 'C15')
         S.poll_rules(A, fl, 'C15')
         S.close_once(A, fl, 'C15')
         R.admission_rules(A, fl, 'C15', parts=('sinks',))
+    R.isolation_rules(A, 'C15')
     R.asgi_rules(A, 'C15')
     R.driver_response_rules(A, 'C15')
